@@ -1,10 +1,29 @@
-(* C09 — evaluation is deterministic: order-independence statements land here (DESIGN.md section 6). *)
-From Coq Require Import String Ascii List.
-From Bkl Require Import Model.Value Model.Eval Model.Parser.
+(* C09 — evaluation is deterministic.
+   The model is a Gallina function, so "same inputs, same result" is immediate (C09_eval_function); the content is
+   that the three loops which the Go code runs in randomised map order have order-independent outcomes, so that the
+   implementation's outcome is determined whenever it refines the model. Everything else in bkl iterates in sorted
+   order (modelled sorted). Concurrency and process-level repetition are checked by execution (DESIGN.md). *)
+From Coq Require Import String Ascii List Permutation.
+From Bkl Require Import Model.Value Model.Merge Model.Eval Model.Parser Proofs.MapsProofs Proofs.MergeProofs Proofs.OrderIndepProofs.
 Import ListNotations.
 
-(* evaluation is a function of the oracles (environment, codecs) and the stored documents:
-   two runs from equal inputs give equal results *)
 Theorem C09_eval_function : forall o docs1 docs2, docs1 = docs2 -> eval_docs o docs1 = eval_docs o docs2.
 Proof. intros; subst; reflexivity. Qed.
 Print Assumptions C09_eval_function.
+
+(* mergeMapMap: visiting the child's entries in any order gives the same success/failure and the same map *)
+Theorem C09_merge_order : forall s s' acc, NoDup (keys s) -> Permutation s s' ->
+  ((exists e, merge_entries false s acc = Err e) <-> (exists e, merge_entries false s' acc = Err e)) /\
+  (forall r r', merge_entries false s acc = Ok r -> merge_entries false s' acc = Ok r' -> forall k, lookup k r = lookup k r').
+Proof. exact merge_entries_order. Qed.
+Print Assumptions C09_merge_order.
+
+(* validateMap: whether the output is accepted does not depend on the order entries are visited in *)
+Theorem C09_validate_order : forall o m m', Permutation m m' -> (validate_go o (VMap m) = None <-> validate_go o (VMap m') = None).
+Proof. exact validate_order. Qed.
+Print Assumptions C09_validate_order.
+
+(* observers do not change the parser: a repeated Output on the same state is the same function application *)
+Theorem C09_repeat_output : forall o st, snd (step o st OOutput) = snd (step o (fst (step o st OOutput)) OOutput).
+Proof. intros o st. unfold step. destruct (failed st); reflexivity. Qed.
+Print Assumptions C09_repeat_output.
